@@ -1325,6 +1325,7 @@ class ImplViz(ImplGen):
 
         class _Os:
             path = _os.path
+            remove = staticmethod(_os.remove)
 
             @staticmethod
             def listdir(dname):
